@@ -22,6 +22,9 @@ EXTENDS Integers, Sequences, FiniteSets, TLC
 ParamTok(ty) == 100 + ty
 OutTok(u, i) == 1000 * u + i          \* i is 1-based here
 FBTok(u, i)  == 500000 + 1000 * u + i
+\* the token of the i-th FallbackWith value of unit record u: a fallback spelled as the literal nil (u.fbnil[i] = 1;
+\* pointer, slice, map, interface values) is the zero value
+FBTokOf(u, i) == IF "fbnil" \in DOMAIN u /\ i <= Len(u.fbnil) /\ u.fbnil[i] = 1 THEN 0 ELSE FBTok(u.id, i)
 ElemTok(c, i) == 20000 + 100 * c + i
 SENTINEL == -7
 UnitNum(u, idx) == IF idx < 0 THEN u * 1000 ELSE u * 1000 + idx + 1   \* as in error tokens
@@ -82,7 +85,7 @@ TokFor(m, ty) ==
   ELSE LET u == UnitOf(m.prog, t) IN
        IF St(m, t) = "ok" THEN OutTok(t, IndexOf(u.outs, ty))
        ELSE IF u.pred # 0 /\ St(m, u.pred) = "false" THEN 0
-       ELSE FBTok(t, IndexOf(u.outs, ty))
+       ELSE FBTokOf(u, IndexOf(u.outs, ty))
 \* a unit whose failure fails the directive (an error or panic not absorbed by FallbackWith)
 FailedInst(m, i) ==
   LET u == UnitOf(m.prog, i[1]) IN
